@@ -47,6 +47,28 @@ MUTANTS = {
     'c15_backward_scan_ignores_split': ('C15', ['both-window-scans-apply-splits'], [
         ('src/portfolio/bookkeeping/superficial_loss.rs', '            TxActionSpecifics::Split(split) => {\n                // Adjustment goes forwards in time for txs before the sale.\n                let new_split_adjustment =\n                    split_adjustment * split.ratio.pre_to_post_factor();\n                af_split_adjustments.insert(before_tx_affil, new_split_adjustment);\n            }\n            // ignored\n            TxActionSpecifics::Sell(_)',
          '            // ignored\n            TxActionSpecifics::Split(_)\n            | TxActionSpecifics::Sell(_)')]),
+    # ------------------------------------------------------------------ C10
+    'c10_boundary_le': ('C10', ['window-boundary'], [
+        ('src/portfolio/summary.rs', '            if delta.tx.settlement_date < first_superficial_loss_period_day {', '            if delta.tx.settlement_date <= first_superficial_loss_period_day {')]),
+    'c10_reemitted_loss_forced': ('C10', ['re-emitted-sale-carries-computed-loss'], [
+        ('src/portfolio/summary.rs', '                            force: false,\n                        });\n                    }\n                    _ => {\n                        panic!(', '                            force: true,\n                        });\n                    }\n                    _ => {\n                        panic!(')]),
+    'c10_summary_dated_by_trade_date': ('C10', ['simple-summary-purchase'], [
+        ('src/portfolio/summary.rs', '            trade_date: tx.settlement_date,\n            settlement_date: tx.settlement_date,\n            action_specifics: super::TxActionSpecifics::Buy(super::BuyTxSpecifics {\n                shares: share_balance,',
+         '            trade_date: tx.trade_date,\n            settlement_date: tx.settlement_date,\n            action_specifics: super::TxActionSpecifics::Buy(super::BuyTxSpecifics {\n                shares: share_balance,')]),
+    'c10_summary_price_is_total': ('C10', ['simple-summary-purchase'], [
+        ('src/portfolio/summary.rs', '                    Some(total_acb) => total_acb.div(share_balance),\n                    None => GreaterEqualZeroDecimal::zero(),\n                },\n                commission: GreaterEqualZeroDecimal::zero(),\n                tx_currency_and_rate: CurrencyAndExchangeRate::default(),\n                separate_commission_currency: None,\n            }),\n            memo: "Summary".to_string(),',
+         '                    Some(total_acb) => total_acb,\n                    None => GreaterEqualZeroDecimal::zero(),\n                },\n                commission: GreaterEqualZeroDecimal::zero(),\n                tx_currency_and_rate: CurrencyAndExchangeRate::default(),\n                separate_commission_currency: None,\n            }),\n            memo: "Summary".to_string(),')]),
+    # ------------------------------------------------------------------ C17
+    'c17_keyed_by_trade_date': ('C17', ['days-keyed-by-settlement-date'], [
+        ('src/portfolio/bookkeeping/costs.rs', '        let date_from_delta = d.tx.settlement_date;', '        let date_from_delta = d.tx.trade_date;')]),
+    'c17_observes_pre_status': ('C17', ['observed-figure-is-post-status-cost-base'], [
+        ('src/portfolio/bookkeeping/costs.rs', '        let total_acb = match d.post_status.total_acb {', '        let total_acb = match d.pre_status.total_acb {')]),
+    'c17_silent_skip': ('C17', ['skipped-transactions-are-listed'], [
+        ('src/portfolio/bookkeeping/costs.rs', '            let af_name = d.tx.affiliate.name();\n            ignored_delta_descs.push(format!(\n                "{date_from_delta} ({sec}) ignored transaction from non-default affiliate {af_name}"));\n            continue;', '            continue;')]),
+    'c17_min_instead_of_max': ('C17', ['same-day-observations-combine-by-max'], [
+        ('src/portfolio/bookkeeping/costs.rs', 'GreaterEqualZeroDecimal::try_from(old_day_max_cost.max(*new_cost))', 'GreaterEqualZeroDecimal::try_from(old_day_max_cost.min(*new_cost))')]),
+    'c17_yearly_ties_move': ('C17', ['replace-only-for-strictly-larger-total'], [
+        ('src/portfolio/bookkeeping/costs.rs', '                if *old_date_cost.total < *day_cost.total {', '                if *old_date_cost.total <= *day_cost.total {')]),
     # ------------------------------------------------------------------ C02
     'c02_window_31': ('C02', ['last-day-is-30-days'], [
         ('src/portfolio/bookkeeping/superficial_loss.rs', 'settlement_date.saturating_add(Duration::days(30))', 'settlement_date.saturating_add(Duration::days(31))')]),
